@@ -95,6 +95,20 @@ def noise(rng, n, kind):
     raise ValueError(kind)
 
 
+def undeliverable_packet(rng):
+    """A packet that is perfect on the wire (marker, length, checksum) but yields no message: the decoder refuses its
+    payload (out-of-range field), or does not know the PGN. It is consumed like any packet and must leave no trace."""
+    for _ in range(5000):
+        src = rng.randrange(1, 250)
+        if rng.random() < 0.6:
+            p = wire.usb_frame(wire.can_id(2, 127250, src, 255), b"\xfd" * 8)          # heading out of range: decode raises
+        else:
+            p = wire.usb_frame(wire.can_id(2, 130999, src, 255), bytes(rng.randrange(256) for _ in range(8)))    # unknown PGN
+        if b"\xaa\x55" not in p[2:] and p[-1] != 0xAA:
+            return p
+    raise RuntimeError("cannot build packet")
+
+
 def build_stream(rng, n_segments, max_noise):
     segs = []          # (kind, bytes)
     k = 0
@@ -108,13 +122,15 @@ def build_stream(rng, n_segments, max_noise):
             else:
                 segs.append(("V", valid_packet(rng, k)))
             k += 1
-        elif r < 0.65:
+        elif r < 0.61:
+            segs.append(("U", undeliverable_packet(rng)))
+        elif r < 0.69:
             p = bytearray(valid_packet(rng, k))
             p[rng.randrange(10, 20)] ^= rng.randrange(1, 256)
             if b"\xaa\x55" in bytes(p[2:]) or p[-1] == 0xAA:
                 continue
             segs.append(("C", bytes(p)))
-        elif r < 0.75:
+        elif r < 0.77:
             p = valid_packet(rng, k)
             cut = rng.randrange(2, 20)
             segs.append(("T", p[:cut]))
@@ -143,9 +159,10 @@ def ground_truth(segs):
     pos = 0
     for kind, b in segs:
         end = pos + len(b)
-        if kind == "V":
+        if kind in ("V", "U"):
             if sync:
-                required.append(pos)
+                if kind == "V":
+                    required.append(pos)
                 consumed_prev = True
             else:
                 consumed_prev = False
